@@ -22,7 +22,9 @@ Copies   == {"cast_same", "cast_narrow", "but_unchanged", "but_lit_num", "but_li
 Rewrites == {"simplify", "split_and", "refactor_reference", "replace_this_with_var", "replace_var_with_this",
              "replace_var_with_literal", "negate", "join_self", "canonical_form", "type_check_references",
              "publish_event"}
-AllOps == Queries \cup Copies \cup Rewrites
+\* other texts going through a parser entry point between two calls (the parser is part of the same process state)
+Parses   == {"parse_accepted", "parse_rejected_syntax", "parse_rejected_type", "parse_rejected_sanity"}
+AllOps == Queries \cup Copies \cup Rewrites \cup Parses
 AllSels == {"root", "child1", "child2", "grandchild", "refleaf", "thisleaf", "result"}
 
 VARIABLES sched,   \* the calls made so far: sequence of [op, sel]
@@ -37,13 +39,13 @@ Call(op, sel) ==
   /\ Len(sched) < MaxCalls
   /\ (sel = "result" => Len(sched) > 0)
   /\ sched' = Append(sched, [op |-> op, sel |-> sel])
-  /\ nheap' = nheap + (IF op \in Queries THEN 0 ELSE 1)
+  /\ nheap' = nheap + (IF op \in Queries \cup Parses THEN 0 ELSE 1)
 
 Next == \E op \in Ops, sel \in Sels : Call(op, sel)
 Spec == Init /\ [][Next]_vars
 
 \* design-level invariant of the abstract machine: only non-query calls allocate
-NonQueries(q) == IF q = <<>> THEN 0 ELSE Len(SelectSeq(q, LAMBDA c : c.op \notin Queries))
+NonQueries(q) == IF q = <<>> THEN 0 ELSE Len(SelectSeq(q, LAMBDA c : c.op \notin Queries \cup Parses))
 QueriesAllocateNothing == nheap = 1 + NonQueries(sched)
 
 \* emission of every schedule (used with -workers 1): always TRUE
